@@ -50,8 +50,8 @@ out.append('\n### 6.2 Independently written breaking changes (sub-agents that sa
 out.append('Each change is kept under `seeded/<name>/` (patch.diff, demo.py, meta.txt from its author, meta.json from `tools/seeded.py`): '
            'the patch applies to /repo HEAD, the 250 repository tests still pass with it, its demonstration exits 0 on /repo and 1 on the '
            'patched tree, and the quick check of the property was run against the patched tree (`AHRS_REPO=<scratch worktree>`).\n')
-out.append('| seeded change | property | needs, to manifest | detected by (quick, seed 1) | seconds |')
-out.append('|---|---|---|---|---|')
+out.append('| seeded change | property | needs, to manifest | detected by (quick, seed 1) | seconds | first evaluation |')
+out.append('|---|---|---|---|---|---|')
 for mj in sorted(glob.glob(os.path.join(HERE, 'seeded', '*', 'meta.json'))):
     m = json.load(open(mj))
     det = [f"{c['property']}" for c in m.get('checks', []) if c.get('detected')]
@@ -59,7 +59,7 @@ for mj in sorted(glob.glob(os.path.join(HERE, 'seeded', '*', 'meta.json'))):
     secs = [c['seconds'] for c in m.get('checks', []) if c['property'] == m['property']]
     note = ', '.join(det) + ((' (not: ' + ', '.join(miss) + ')') if miss else '')
     ok = m.get('tests_pass') and m.get('demo_exit_on_repo') == 0 and m.get('demo_exit_on_patched') not in (0, None)
-    out.append(f"| {m['name']}{'' if ok else ' (NOT CONFIRMED)'} | {m['property']} | {m.get('needs_to_manifest', '')} | {note} | {secs[0] if secs else ''} |")
+    out.append(f"| {m['name']}{'' if ok else ' (NOT CONFIRMED)'} | {m['property']} | {m.get('needs_to_manifest', '')} | {note} | {secs[0] if secs else ''} | {m.get('first_evaluation', 'caught by the check as it stood')} |")
 text = '\n'.join(out) + '\n'
 p = os.path.join(HERE, 'DESIGN.md')
 s = open(p).read()
